@@ -66,7 +66,7 @@ def main():
             ths = enclosing_theorems(prop, out)
             errs = [l for l in out.split("\n") if "error" in l][:20]
             broken.append({"kind": "lean-build", "theorems": ths, "errors": errs})
-        bad = C.grep_forbidden()
+        bad = C.grep_forbidden(prop)
         if bad:
             broken.append({"kind": "forbidden-construct", "hits": bad})
         names, axioms, problems = ([], {}, [])
